@@ -148,25 +148,22 @@ theorem c16_rand_wf (draw : Nat → α) (shape : List Nat) {r : Arr α}
 theorem c16_eye_wf (n : Nat) (m : Option Nat) (k : Option Nat) {r : Arr Int}
     (h : C16.eye n m k = .ok r) : r.WF := by
   unfold C16.eye at h
-  exact new_ok_wf h
+  res_inv
+  wf_close
 
 theorem c16_identity_wf (n : Nat) {r : Arr Int} (h : C16.identity n = .ok r) : r.WF := new_ok_wf h
 
 theorem c16_tri_wf (n : Nat) (m : Option Nat) (k : Option Int) {r : Arr Int}
     (h : C16.tri n m k = .ok r) : r.WF := by
   unfold C16.tri at h
-  exact new_ok_wf h
+  res_inv
+  wf_close
 
 theorem c16_applyTriangular_wf (a : Arr Int) (k : Int) (compare : Int → Int → Int → Bool) (_ha : a.WF)
     {r : Arr Int} (h : C16.applyTriangular a k compare = .ok r) : r.WF := by
   unfold C16.applyTriangular at h
-  split at h
-  · cases h
-  · dsimp only at h
-    split at h
-    · exact new_ok_wf h
-    · cases h
-    · cases h
+  res_inv
+  wf_close
 
 theorem c16_tril_wf (a : Arr Int) (k : Option Int) (ha : a.WF) {r : Arr Int}
     (h : C16.tril a k = .ok r) : r.WF := c16_applyTriangular_wf _ _ _ ha h
@@ -177,17 +174,14 @@ theorem c16_triu_wf (a : Arr Int) (k : Option Int) (ha : a.WF) {r : Arr Int}
 theorem c16_diag1d_wf (data : Arr Int) (k : Int) (_hd : data.WF) {r : Arr Int}
     (h : C16.diag1d data k = .ok r) : r.WF := by
   unfold C16.diag1d at h
-  obtain ⟨_, _, h⟩ := bind_ok_inv h
-  obtain ⟨_, _, h⟩ := bind_ok_inv h
-  exact new_ok_wf h
+  res_inv
+  wf_close
 
 theorem c16_diag2d_wf (data : Arr Int) (k : Int) (_hd : data.WF) {r : Arr Int}
     (h : C16.diag2d data k = .ok r) : r.WF := by
   unfold C16.diag2d at h
-  obtain ⟨_, _, h⟩ := bind_ok_inv h
-  obtain ⟨_, _, h⟩ := bind_ok_inv h
-  obtain ⟨_, _, h⟩ := bind_ok_inv h
-  exact new_ok_wf h
+  res_inv
+  wf_close
 
 theorem c16_diag_wf (a : Arr Int) (k : Option Int) (ha : a.WF) {r : Arr Int}
     (h : C16.diag a k = .ok r) : r.WF := by
@@ -205,28 +199,20 @@ theorem c16_diagflat_wf (a : Arr Int) (k : Option Int) (_ha : a.WF) {r : Arr Int
 theorem c16_vander_wf (a : Arr Int) (n : Option Nat) (increasing : Option Bool) (_ha : a.WF) {r : Arr Int}
     (h : C16.vander a n increasing = .ok r) : r.WF := by
   unfold C16.vander at h
-  split at h
-  · cases h
-  · split at h
-    · exact new_ok_wf h
-    · cases h
-    · cases h
+  res_inv
+  wf_close
 
 theorem c16_arange_wf (start stop : Rat) (step : Option Rat) {r : Arr Rat}
     (h : C16.arange start stop step = .ok r) : r.WF := by
   unfold C16.arange at h
-  dsimp only at h
-  repeat' split at h
-  all_goals first | (cases h; exact flat_wf _) | cases h
+  res_inv
+  wf_close
 
 theorem c16_linspace_wf (start stop : Rat) (num : Option Nat) (endpoint : Option Bool) {r : Arr Rat}
     (h : C16.linspace start stop num endpoint = .ok r) : r.WF := by
   unfold C16.linspace at h
-  dsimp only at h
-  split at h
-  · cases h; exact flat_wf _
-  · cases h
-  · cases h
+  res_inv
+  wf_close
 
 theorem c16_macroZeros_wf (dims : List Nat) {r : Arr Int} (h : C16.macroZeros dims = .ok r) : r.WF :=
   c16_zeros_wf _ h
